@@ -17,7 +17,7 @@ import (
 // login runs the real OAuthStart + OAuthCallback and returns the session cookie value.
 func (w *World) login(host string, pol Policy, e int, email string) (string, error) {
 	start := world.Do(w.P.Handler, world.NewReq("GET", host, "/secret", nil, nil, ""))
-	if start.Status != 302 {
+	if !world.IsRedirect(start.Status) {
 		return "", fmt.Errorf("start: status %d", start.Status)
 	}
 	loc, err := url.Parse(start.Header.Get("Location"))
@@ -36,7 +36,7 @@ func (w *World) login(host string, pol Policy, e int, email string) (string, err
 	cb := world.Do(w.P.Handler, world.NewReq("GET", host, "/oauth2/callback?code=c0de&state="+url.QueryEscape(state), nil,
 		[]*http.Cookie{{Name: w.P.CSRFName, Value: csrf}}, ""))
 	v, _ := cb.CookieAfter(w.P.CookieName, "")
-	if cb.Status != 302 || v == "" {
+	if !world.IsRedirect(cb.Status) || v == "" {
 		return "", fmt.Errorf("callback: status %d, session cookie %q", cb.Status, v)
 	}
 	return v, nil
